@@ -80,8 +80,9 @@ def gen_random_case(rng, kinds):
         s = 0 if d == 1 else rng.randrange(0, d)
         hyp = {}
     else:
-        d = rng.choice([1, 1, 2, 3, 4, 5])
-        s = 0 if d == 1 else rng.randrange(0, d)
+        # (also more than ten features / sources: names and indices with two digits)
+        d = rng.choice([1, 1, 2, 3, 4, 5, 5, 8, 11])
+        s = 0 if d == 1 else rng.choice([rng.randrange(0, d), d - 1])
         hyp = {}
     noise = rng.choice(["gaussian-scalar", "gaussian-diagonal"]) if d > 1 else "gaussian-scalar"
     fstyle = rng.choice(["plain", "plain", "odd", "odd", "odd", "dimension-only"])
@@ -91,12 +92,17 @@ def gen_random_case(rng, kinds):
         pool = ["ADAS 11", "mmse-total", "β-amyloid", "x.1", "feature,with,commas", "Été", "a" * 40, "0", "y",
                 # headers as they come out of spreadsheets: surrounding blanks / tabs, upper case, inner double blank
                 "MMSE ", " ADAS-Cog 13", "CDR\t", "  padded  ", "UPPER", "Two  blanks", "trailing.", "'quoted'"]
-        feats = rng.sample(pool, d)
+        feats = rng.sample(pool, d) if d <= len(pool) else None
+        if d > 5:
+            feats = rng.sample(pool, 5) + [f"Col {i}" for i in range(5, d)]
     else:
         feats = None
     # "written by hand": in a third of the cases the parameters are replaced a second time, in place, on the same object
+    # pstyle "edge": hand-written values up to the edge of what a parameter may hold (several decades, zero, float32 sub-normals);
+    # pcont: the container / dtype each value is handed over in (nested list, nested tuple, float32 numpy array or tensor, bare number)
     return dict(src="random", kind=kind, d=d, s=s, noise=noise, feats=feats, hyp=hyp, name=pick_name(rng, kind),
-                pseed=rng.randrange(10 ** 6), rewrite=(rng.randrange(10 ** 6) if rng.random() < 0.35 else None))
+                pseed=rng.randrange(10 ** 6), rewrite=(rng.randrange(10 ** 6) if rng.random() < 0.35 else None),
+                pstyle=("edge" if rng.random() < 0.35 else "plain"), pcont=(rng.randrange(1, 10 ** 6) if rng.random() < 0.4 else None))
 
 
 def pick_name(rng, kind):
@@ -128,23 +134,90 @@ def gen_fit_case(rng, kinds):
     if kind == "mixture_logistic":
         noise = "gaussian-diagonal"
     rename = rng.random() < 0.4
+    n_iter = rng.choice([1, 2, 3]) if rng.random() < 0.2 else rng.randrange(5, 11)
+    if kind == "mixture_logistic":
+        n_iter = max(n_iter, 3)        # (a one-iteration mixture fit leaves a zero variance: the next call refuses the model)
+    # the memory-less phase: shorter than the run, the whole run, longer than the run
+    n_burn = rng.choice([n_iter, n_iter - 1, n_iter + 3, 0]) if rng.random() < 0.3 else rng.randrange(0, min(4, n_iter + 1))
+    algo = {}
+    if rng.random() < 0.3 and n_iter >= 2:
+        n_plateau = rng.choice([1, 2, 3])
+        algo["annealing"] = dict(do_annealing=True, initial_temperature=rng.choice([2, 10]), n_plateau=n_plateau,
+                                 n_iter=rng.randrange(n_plateau, max(n_plateau, n_iter) + 1))     # (documented: at least n_plateau - 1)
+    if rng.random() < 0.3:
+        algo["sampler_pop"] = rng.choice(["Gibbs", "FastGibbs", "Metropolis-Hastings"])
     return dict(src="fit", kind=kind, which=which, d=d, s=s, noise=noise, rename=rename, name=pick_name(rng, kind),
-                give_dim=rng.random() < 0.5, n_iter=rng.randrange(5, 11), n_burn=rng.randrange(0, 4), seed=rng.randrange(1000),
+                give_dim=rng.random() < 0.5, n_iter=n_iter, n_burn=n_burn, seed=rng.choice([0, rng.randrange(1000)]),
                 hyp=dict(n_clusters=2) if kind == "mixture_logistic" else {},
-                refit=(rng.randrange(3, 6) if rng.random() < 0.25 else None))
+                refit=(rng.randrange(3, 6) if rng.random() < 0.25 else None),
+                # (a plain table cannot say that two of its columns are the event: joint cohorts go as Data / Dataset only;
+                #  the mixture model documents that it takes no `initialization_method`)
+                algo=algo, data_as=rng.choice(["data", "data", "dataset"] + ([] if kind == "joint" else ["dataframe", "dataframe"])),
+                settings_obj=rng.random() < 0.3,
+                init=("random" if rng.random() < 0.15 and kind != "mixture_logistic" else None), logs=rng.random() < 0.08,
+                # warm start: the fitted model is saved, loaded, and the *loaded* object is fitted some more
+                warm=(rng.randrange(1, 5) if rng.random() < 0.25 else None))
 
 
-def random_parameters(E, rng_seed, model):
-    """plausible random values for every ModelParameter of the DAG (python doubles)"""
+EDGE_POS = [1e-40, 1e-30, 1e-6, 1e-3, 1.0, 50.0, 1e4, 0.0, 0.1, 3.0000000000000004]       # standard deviations, weights
+EDGE_ANY = [0.0, -0.0, 1e-40, -1e-30, 1e-6, -12.0, 8.0, 30.0, -30.0, 1e3, -1e3, 1e6, 0.1, 1 / 3, 16777217.0, 2.5e-7]
+
+
+EDGE_LOG = [0.0, -0.0, 1e-40, -1e-6, -12.0, 8.0, 30.0, -30.0, -40.0, 0.1, 1 / 3, 2.5e-7]
+
+
+def as_container(E, rng, nested, shape):
+    """the same numbers handed over the way a user may: nested list / tuple, float32 numpy array / tensor, bare number"""
+    torch, np = E.torch, E.np
+    r = rng.random()
+
+    def tup(x):
+        return tuple(tup(y) for y in x) if isinstance(x, list) else x
+    n = 1
+    for k in shape:
+        n *= k
+    if r < 0.2:
+        return tup(nested)
+    if r < 0.4:
+        return np.array(nested, dtype=np.float32)
+    if r < 0.6:
+        return torch.tensor(nested, dtype=torch.float32)
+    if r < 0.7 and n == 1:
+        return torch.tensor(nested, dtype=torch.float32).reshape(())       # 0-d for a one-element parameter
+    if r < 0.8 and n == 1:
+        x = nested
+        while isinstance(x, list):
+            x = x[0]
+        return x
+    return nested
+
+
+def random_parameters(E, rng_seed, model, style="plain", containers=None):
+    """random values for every ModelParameter of the DAG (python doubles in nested lists).
+    style "plain": plausible values; "edge": each parameter, with probability 1/2, takes values from the edge of its range
+    (several decades, zero, signed zero, float32 sub-normals, integers beyond 2**24).  containers: seed of the container choice."""
     import random
     rng = random.Random(rng_seed)
+    crng = random.Random(containers) if containers is not None else None
     out = {}
     for name, var in model.dag.sorted_variables_by_type[E.ModelParameter].items():
         shape = var.shape if isinstance(var.shape, tuple) else (var.shape,)
         n = 1
         for k in shape:
             n *= k
-        if name == "noise_std":
+        edge = style == "edge" and rng.random() < 0.5
+        if edge and name == "probs":
+            w = [rng.choice([1e-6, 1e-3, 1.0, 1.0]) for _ in range(n)]
+            vals = [x / sum(w) for x in w]
+        elif edge and (name.endswith("_std") or name == "noise_std"):
+            vals = [rng.choice(EDGE_POS) for _ in range(n)]
+        elif edge and "log_" in name:
+            # log-scale parameters: exp() of them must stay a finite positive float32, its square too (the model refuses a metric
+            # that overflowed: "Incoherent 1D metric"), so the edge is a few tens, not thousands
+            vals = [rng.choice(EDGE_LOG + [rng.gauss(0, 1) * 10.0 ** rng.randrange(-8, 2)]) for _ in range(n)]
+        elif edge:
+            vals = [rng.choice(EDGE_ANY + [rng.gauss(0, 1) * 10.0 ** rng.randrange(-8, 5)]) for _ in range(n)]
+        elif name == "noise_std":
             vals = [rng.uniform(0.02, 0.3) for _ in range(n)]
         elif name in ("tau_std",):
             vals = [rng.uniform(2, 12) for _ in range(n)]
@@ -163,7 +236,28 @@ def random_parameters(E, rng_seed, model):
             vals = [rng.choice([rng.uniform(-1, 1), rng.randrange(-8, 9) / 8.0]) for _ in range(n)]
         t = E.torch.tensor(vals, dtype=E.torch.float64).reshape(shape)
         out[name] = t.tolist()
+        if crng is not None:
+            out[name] = as_container(E, crng, out[name], shape)
     return out
+
+
+def scribble(E, given):
+    """Overwrite, in place, the numpy arrays and nested lists a caller handed over (torch tensors are documented to be taken as
+    they are and are left alone): what the model holds must not follow."""
+    import numpy as np
+
+    def walk(x):
+        if isinstance(x, np.ndarray):
+            if x.flags.writeable and x.dtype.kind in "fiu" and x.size:
+                x += 3
+        elif isinstance(x, list):
+            for i, y in enumerate(x):
+                if isinstance(y, (list, np.ndarray)):
+                    walk(y)
+                elif isinstance(y, (int, float)) and not isinstance(y, bool):
+                    x[i] = y + 3
+    for v in given.values():
+        walk(v)
 
 
 def build_model(E, case):
@@ -179,14 +273,22 @@ def build_model(E, case):
         kw["obs_models"] = case["noise"]
         m = E.model_factory(kind, instance_name=case["name"], **kw)
         m._initialize_state()
-        m.load_parameters(random_parameters(E, case["pseed"], m))
+        style, cont = case.get("pstyle", "plain"), case.get("pcont")
+        given = random_parameters(E, case["pseed"], m, style, cont)
+        m.load_parameters(given)
+        scribble(E, given)                # the caller re-uses its buffers afterwards: the model holds its own numbers
         m._is_initialized = True          # what BaseModel.load does after load_parameters
+        last = (case["pseed"], None)
         if case.get("rewrite") is not None:
             # parameters written by hand on an object that already holds population variables; the object is *read*
             # through its public accessors in between (a reader must not freeze what a later save writes)
             _ = (m.parameters, m.hyperparameters, m.to_dict())
-            m.load_parameters(random_parameters(E, case["rewrite"], m))
-        return m, None
+            given = random_parameters(E, case["rewrite"], m, style, None if cont is None else cont + 1)
+            m.load_parameters(given)
+            scribble(E, given)
+            last = (case["rewrite"], None)
+        # what was handed over last, as plain nested lists of doubles (same seed, no container): the reference for "written by hand"
+        return m, {"handed": random_parameters(E, last[0], m, style, None)}
     which = case["which"]
     df0, _ = A.cohort(which)
     cols = A.feature_columns(df0)[: case["d"]]
@@ -199,15 +301,52 @@ def build_model(E, case):
         kw["source_dimension"] = case["s"]
     if case["noise"] is not None:
         kw["obs_models"] = case["noise"]
+    if case.get("init"):
+        kw["initialization_method"] = case["init"]
     m = E.model_factory(kind, instance_name=case["name"], **kw)
+    # the cohort in every form `fit` accepts
+    data_as = case.get("data_as", "data")
+    if data_as == "dataframe":
+        given = df.reset_index() if case["seed"] % 2 else df
+    elif data_as == "dataset":
+        from leaspy.io.data.dataset import Dataset
+        given = Dataset(data)
+    else:
+        given = data
+    algo_kw = dict(n_iter=case["n_iter"], seed=case["seed"], progress_bar=False,
+                   n_burn_in_iter=case.get("n_burn", max(0, case["n_iter"] // 3)), **copy.deepcopy(case.get("algo") or {}))
+    logdir = None
     with core.quiet():
         # a short memory-less phase, so that the final parameters are averages and differ from the last realisations
-        m.fit(data, "mcmc_saem", n_iter=case["n_iter"], seed=case["seed"], progress_bar=False,
-              n_burn_in_iter=case.get("n_burn", max(0, case["n_iter"] // 3)))
+        # (or none at all / the whole run: see gen_fit_case); settings as keywords or as a settings object, with or without logs
+        if case.get("settings_obj") or case.get("logs"):
+            st = E.AlgorithmSettings("mcmc_saem", **algo_kw)
+            if case.get("logs"):
+                logdir = tempfile.mkdtemp(prefix="c12_logs_")
+                st.set_logs(path=os.path.join(logdir, "logs"), save_periodicity=2, plot_periodicity=None, print_periodicity=None,
+                            overwrite_logs_folder=True)
+            try:
+                m.fit(given, algorithm_settings=st)
+            finally:
+                if logdir:
+                    shutil.rmtree(logdir, ignore_errors=True)
+        else:
+            m.fit(given, "mcmc_saem", **algo_kw)
         if case.get("refit"):
             # the fitted object is read (parameters, to_dict), then fitted some more: the file must hold the final state
             _ = (m.parameters, m.hyperparameters, m.to_dict())
             m.fit(data, "mcmc_saem", n_iter=case["refit"], seed=case["seed"] + 1, progress_bar=False, n_burn_in_iter=1)
+        if case.get("warm") and case["name"].lower() == kind:
+            # warm start from a file: save, load, fit the loaded object some more (it is the object the case goes on with)
+            wp = os.path.join(tempfile.gettempdir(), f"c12_warm_{os.getpid()}.json")
+            try:
+                m.save(wp)
+                m = E.BaseModel.load(wp)
+                m.fit(data, "mcmc_saem", n_iter=case["warm"], seed=case["seed"] + 2, progress_bar=False,
+                      n_burn_in_iter=min(1, case["warm"]))
+            finally:
+                if os.path.exists(wp):
+                    os.remove(wp)
     return m, (df, data)
 
 
@@ -281,6 +420,16 @@ def run_case(chk, E, case, tmp, FC=None, bases=None):
     hyper0 = {k: torch.as_tensor(v).detach().clone() for k, v in m.hyperparameters.items()}
     double_params = sorted(k for k, v in params0.items() if v.dtype == torch.float64)
     tags["double_params"] = bool(double_params)
+    # --- P0: a value written by hand is the value the model holds (single precision), whatever its size: the reference is the
+    # number handed over, not what the model says it holds
+    if case["src"] == "random" and fitinfo and fitinfo.get("handed"):
+        for k, v in fitinfo["handed"].items():
+            want = torch.tensor(v, dtype=torch.float64).float().reshape(-1)
+            got = params0.get(k)
+            if got is None or got.numel() != want.numel() or not same_bits(torch, got.reshape(-1).float(), want):
+                chk.impl_failure(cj, f"parameter '{k}' written by hand ({str(v)[:60]}) is held by the model as "
+                                     f"{None if got is None else got.reshape(-1)[:4].tolist()}")
+                break
     # --- P1: after a fit the population variables are the prior modes
     if case["src"] == "fit":
         for pv in cl["pop"]:
@@ -294,7 +443,13 @@ def run_case(chk, E, case, tmp, FC=None, bases=None):
         chk.case(("save", repr(case)), tags=tags)
         return None, None
     j1 = json.load(open(p1))
-    req = lean_request(j1, kind)
+    try:
+        req = lean_request(j1, kind)
+    except (ValueError, OverflowError):
+        # non-finite parameters (a mixture fit that collapsed, finding F26 family): the field-level request speaks exact
+        # rationals; the property predicate below and the file-level requests (tokens for nan / inf) still run
+        req = None
+        chk.tag("non_finite_parameters_field_request_skipped", case["kind"])
     # --- P2: load
     try:
         with core.quiet():
@@ -333,7 +488,7 @@ def run_case(chk, E, case, tmp, FC=None, bases=None):
         if not isinstance(w, torch.Tensor):
             chk.tag("non_tensor_parameter_after_load", f"{case['kind']}:{k}:{type(w).__name__}")
             w = torch.as_tensor(w)
-        if v.numel() != w.numel() or not torch.equal(v.reshape(-1).float(), w.reshape(-1)):
+        if v.numel() != w.numel() or not same_bits(torch, v.reshape(-1).float(), w.reshape(-1)):      # (nan is nan)
             fails.append(f"parameter '{k}' differs after reload (single precision): {v.reshape(-1)[:3].tolist()} vs {w.reshape(-1)[:3].tolist()}")
         elif tuple(v.shape) != tuple(w.shape):
             if k == "noise_std" and v.dim() == 0 and tuple(w.shape) == (1,):
@@ -345,7 +500,7 @@ def run_case(chk, E, case, tmp, FC=None, bases=None):
             fails.append(f"extra parameter '{k}' after reload")
     for k, v in hyper0.items():
         w = m2.hyperparameters.get(k)
-        if w is None or not torch.equal(v.reshape(-1).float(), torch.as_tensor(w).reshape(-1).float()):
+        if w is None or not same_bits(torch, v.reshape(-1).float(), torch.as_tensor(w).reshape(-1).float()):
             fails.append(f"hyperparameter '{k}' differs after reload")
     if m2.features != m.features or m2.dimension != m.dimension or getattr(m2, "source_dimension", None) != getattr(m, "source_dimension", None):
         fails.append("features / dimension / source_dimension differ after reload")
@@ -370,7 +525,9 @@ def run_case(chk, E, case, tmp, FC=None, bases=None):
         if isinstance(a, E.WeightedTensor) or isinstance(b, E.WeightedTensor):
             continue
         n_derived += 1
-        ok = torch.equal(a.float(), b.float()) if exact else torch.allclose(a.double(), b.double(), rtol=1e-5, atol=1e-7)
+        # (hand-written edge values may overflow a derived value to inf / nan: then on both sides, at the same positions)
+        ok = (a.shape == b.shape and same_bits(torch, a.float(), b.float())) if exact else \
+            torch.allclose(a.double(), b.double(), rtol=1e-5, atol=1e-7, equal_nan=True)
         if a.shape != b.shape or not ok:
             fails.append(f"derived quantity '{v}' of the original object disagrees with the reloaded one")
     chk.tag("derived_compared", n_derived)
@@ -402,6 +559,12 @@ def run_case(chk, E, case, tmp, FC=None, bases=None):
     b3 = open(p3, "rb").read()
     if b3 != b2:
         chk.impl_failure(cj, "a second save/load round trip still changes the file")
+    try:
+        entry_points(chk, E, cj, case, m, m2, j1, b1, b2, tmp, tags)
+    except core.Infra:
+        raise
+    except Exception as e:  # noqa  (an object that came out of one of the ways in cannot even be inspected / saved)
+        chk.impl_failure(cj, f"save / load through another public way in: unexpected {type(e).__name__}: {str(e)[:120]}")
     if b1 != b2:
         # classify the difference narrowly
         diffs = []
@@ -444,19 +607,187 @@ def run_case(chk, E, case, tmp, FC=None, bases=None):
             chk.tag("resave_diff", "noise_std x -> [x]")
             chk.impl_failure(cj, "re-saved file differs: scalar noise_std is written as a bare number after the fit and as a "
                                  "one-element list after load", finding="F25")
-    same_model_level = modelled_fields(j2) == modelled_fields(j1)
-    again = modelled_fields(json.load(open(p3))) == modelled_fields(j2)
-    ps2 = {}
-    for k, v in m2.parameters.items():
-        ps2[k] = A.tensor_canon(torch.as_tensor(v))
-    pops = sorted(cl["pop"])
-    ans = (f"ok name={m2.name} same={int(same_model_level)} again={int(again)} p={params_line(ps2)} "
-           f"pop={fmt_list(sorted(A.variable_classes(m2)['pop']))}")
+    ans = None
+    if req is not None:         # (the field-level answer speaks exact rationals too: only for finite parameters)
+        same_model_level = modelled_fields(j2) == modelled_fields(j1)
+        again = modelled_fields(json.load(open(p3))) == modelled_fields(j2)
+        ps2 = {}
+        for k, v in m2.parameters.items():
+            ps2[k] = A.tensor_canon(torch.as_tensor(v))
+        ans = (f"ok name={m2.name} same={int(same_model_level)} again={int(again)} p={params_line(ps2)} "
+               f"pop={fmt_list(sorted(A.variable_classes(m2)['pop']))}")
     tags["outcome"] = "ok"
     tags["name"] = "kind" if case["name"] == kind else ("kind-other-case" if name_is_kind else "other")
     chk.case(("rt", kind, case["name"], case.get("d"), case.get("s"), case.get("noise"), case["src"], bool(double_params)),
              tags=tags, sample={k: v for k, v in case.items()} if len(chk.samples) < 4 and case["src"] == "fit" else None)
     return req, ans
+
+
+def model_fingerprint(E, m):
+    """class, name, features, parameters (dtype, shape, bits) of a loaded model"""
+    return (type(m).__name__, m.name, None if m.features is None else list(m.features), m.dimension, getattr(m, "source_dimension", None),
+            named_tok(m.parameters), named_tok(m.hyperparameters), json.dumps(m.fit_metrics, sort_keys=True, default=str))
+
+
+def entry_points(chk, E, cj, case, m, m2, j1, b1, b2, tmp, tags):
+    """The same save / load through every public way in: a `pathlib.Path`, a dictionary (straight from `to_dict`, or parsed from the
+    file), the classmethod reached through the concrete class, the documented options of `save` (`with_mixing_matrix`, json.dump
+    keywords), a deep copy of the object, a second save of the original after it has been read and used.  Each must give the model /
+    the file the plain `save(str)` / `load(str)` gave (m2, b1, b2).  A deterministic sub-sample per case (all of them in the first cases)."""
+    import pathlib
+    import random
+    import zlib
+    torch = E.torch
+    rng = random.Random(zlib.crc32(repr(sorted((k, repr(v)) for k, v in case.items())).encode()))
+    want = model_fingerprint(E, m2)
+    every = chk.evaluations < 12 or chk.tier == "thorough"
+    p1 = os.path.join(tmp, "m1.json")
+
+    def pick(prob=0.3):
+        return every or rng.random() < prob
+
+    def loaded_same(m_alt, how):
+        got = model_fingerprint(E, m_alt)
+        if got != want:
+            k = next((i for i, (a, b) in enumerate(zip(got, want)) if a != b), None)
+            what = ["class", "name", "features", "dimension", "source_dimension", "parameters", "hyperparameters", "fit_metrics"][k]
+            chk.impl_failure(cj, f"load {how}: the model differs from the one load(str path) gives ({what})")
+            return
+        q = os.path.join(tmp, "ep_resave.json")
+        m_alt.save(q)
+        if open(q, "rb").read() != b2:
+            chk.impl_failure(cj, f"load {how}: saving the result does not give the file that load(str path) + save gives")
+
+    def attempt(how, fn, finding_if=None):
+        try:
+            with core.quiet():
+                return fn()
+        except Exception as e:  # noqa
+            fid = finding_if(e) if finding_if else None
+            chk.impl_failure(cj, f"{how} raised {type(e).__name__}: {str(e)[:120]}", finding=fid)
+            if fid:
+                tags["entry_point_finding"] = fid
+            return None
+
+    if pick():
+        # F110 region: exactly "load given a pathlib.Path is refused as a bad type"
+        r = attempt("BaseModel.load(pathlib.Path)", lambda: E.BaseModel.load(pathlib.Path(p1)),
+                    lambda e: "F110" if (isinstance(e, E.errs["model"]) and "Bad type for model settings" in str(e)) else None)
+        if r is not None:
+            loaded_same(r, "from a pathlib.Path")
+    if pick():
+        d = m.to_dict()
+        before = tree_str(d)
+        r = attempt("BaseModel.load(model.to_dict())", lambda: E.BaseModel.load(d))
+        if r is not None:
+            loaded_same(r, "from the dictionary to_dict() returns")
+            if tree_str(d) != before:
+                chk.impl_failure(cj, "BaseModel.load(dict) modified the dictionary it was given")
+    if pick():
+        d = json.load(open(p1))
+        before = tree_str(d)
+        r = attempt("BaseModel.load(dict parsed from the file)", lambda: E.BaseModel.load(d))
+        if r is not None:
+            loaded_same(r, "from the parsed dictionary")
+            if tree_str(d) != before:
+                chk.impl_failure(cj, "BaseModel.load(dict) modified the dictionary it was given")
+    if pick(0.2):
+        r = attempt(f"{type(m).__name__}.load(path)", lambda: type(m).load(p1))
+        if r is not None:
+            loaded_same(r, "through the concrete class")
+    # --- save variants
+    q = os.path.join(tmp, "ep_save.json")
+    if pick(0.2):
+        if attempt("save(pathlib.Path)", lambda: (m.save(pathlib.Path(q)), True)[1]) and open(q, "rb").read() != b1:
+            chk.impl_failure(cj, "save(pathlib.Path) writes another file than save(str)")
+    if pick():
+        if attempt("save(with_mixing_matrix=False)", lambda: (m.save(q, with_mixing_matrix=False), True)[1]):
+            jq = json.load(open(q))
+            ref = copy.deepcopy(j1)
+            ref["parameters"].pop("mixing_matrix", None)
+            if "mixing_matrix" in jq.get("parameters", {}):
+                chk.impl_failure(cj, "save(with_mixing_matrix=False) still writes the mixing matrix")
+            elif tree_str(jq) != tree_str(ref):
+                chk.impl_failure(cj, "save(with_mixing_matrix=False) differs from the plain file in more than the mixing matrix")
+            else:
+                r = attempt("load of a file saved without mixing matrix", lambda: E.BaseModel.load(q))
+                if r is not None:
+                    loaded_same(r, "of a file saved with with_mixing_matrix=False")
+    if pick():
+        kw = rng.choice([dict(indent=None), dict(sort_keys=True), dict(indent=4, sort_keys=True), dict(separators=(",", ":"), indent=None),
+                         dict(ensure_ascii=False)])
+        if attempt(f"save(**{kw})", lambda: (m.save(q, **kw), True)[1]):
+            try:
+                jq = json.load(open(q, encoding="utf-8"))
+            except Exception as e:  # noqa
+                jq = None
+                chk.impl_failure(cj, f"save(**{kw}) wrote a file json cannot parse: {type(e).__name__}")
+            if jq is not None:
+                if jq != j1 and json.dumps(jq, sort_keys=True) != json.dumps(j1, sort_keys=True):     # (nan != nan: compare the text too)
+                    chk.impl_failure(cj, f"save(**{kw}) writes another content than the plain save")
+                else:
+                    r = attempt(f"load of a file saved with {kw}", lambda: E.BaseModel.load(q))
+                    if r is not None:
+                        loaded_same(r, f"of a file saved with {kw}")
+    if pick(0.2):
+        mc = attempt("copy.deepcopy(model)", lambda: copy.deepcopy(m))
+        if mc is not None and attempt("save of a deep copy", lambda: (mc.save(q), True)[1]) and open(q, "rb").read() != b1:
+            chk.impl_failure(cj, "a deep copy of the model saves another file than the model")
+    # --- the original object has been read, used for trajectories and copied: it still saves the same file
+    if attempt("second save of the original", lambda: (m.save(q), True)[1]) and open(q, "rb").read() != b1:
+        chk.impl_failure(cj, "the model saves another file after it has been loaded from / used for estimates / copied (nothing was fitted in between)")
+    tags["entry_points"] = "all" if every else "sampled"
+
+
+def ambient_dtype_probe(chk, E, tmp):
+    """A file written under the usual default dtype is loaded while the ambient torch default dtype is float64: the parameters are the
+    same to single precision, and saved again (still under float64) the file holds the same parameter values.  Nothing else is demanded:
+    what is recomputed (mixing matrix) is recomputed in double, and estimates under a float64 default dtype fail on a model that was
+    never saved either (float32 ages against float64 matrices) - not this property's matter."""
+    torch = E.torch
+    for case in (dict(src="random", kind="logistic", d=3, s=2, noise="gaussian-diagonal", feats=["A", "B", "C"], hyp={}, name="logistic", pseed=21),
+                 dict(src="random", kind="joint", d=2, s=1, noise="gaussian-scalar", feats=["A", "B"], hyp={}, name="joint", pseed=22),
+                 dict(src="random", kind="mixture_logistic", d=3, s=1, noise="gaussian-diagonal", feats=["A", "B", "C"], hyp=dict(n_clusters=2),
+                      name="mixture_logistic", pseed=23)):
+        cj = dict(case, ambient="float64")
+        try:
+            m, _ = build_model(E, case)
+            p = os.path.join(tmp, "amb.json")
+            m.save(p)
+            j1 = json.load(open(p))
+        except Exception as e:  # noqa
+            chk.note(f"ambient dtype probe could not be set up: {type(e).__name__}")
+            continue
+        old = torch.get_default_dtype()
+        try:
+            torch.set_default_dtype(torch.float64)
+            try:
+                with core.quiet():
+                    m2 = E.BaseModel.load(p)
+                    q = os.path.join(tmp, "amb2.json")
+                    m2.save(q)
+                    j2 = json.load(open(q))
+            except Exception as e:  # noqa
+                chk.impl_failure(cj, f"a saved model cannot be loaded / saved again while the torch default dtype is float64: {type(e).__name__}: {str(e)[:100]}")
+                continue
+            for k in set(j1) | set(j2):
+                a, b = j1.get(k), j2.get(k)
+                if k == "parameters":
+                    a = {n: v for n, v in a.items() if n != "mixing_matrix"}
+                    b = {n: v for n, v in b.items() if n != "mixing_matrix"}
+                if k != "hyperparameters" and tree_str(a) != tree_str(b):
+                    chk.impl_failure(cj, f"loaded and saved again under default dtype float64, the file differs in '{k}'")
+            if type(m2) is not type(m) or sorted(m2.parameters) != sorted(m.parameters):
+                chk.impl_failure(cj, f"loaded under default dtype float64, the file of a {type(m).__name__} gives a {type(m2).__name__} with "
+                                     f"parameters {sorted(m2.parameters)}")
+                continue
+            for k, v in m.parameters.items():
+                w = torch.as_tensor(m2.parameters[k])
+                if v.numel() != w.numel() or not torch.equal(v.reshape(-1).float(), w.reshape(-1).float()):
+                    chk.impl_failure(cj, f"parameter '{k}' differs (single precision) when the file is loaded under default dtype float64")
+        finally:
+            torch.set_default_dtype(old)
+        chk.case(("ambient-f64", case["kind"]), nontrivial=True, tags={"ambient_dtype": "float64"})
 
 
 def compare(chk, cases, reqs, answers):
@@ -543,6 +874,21 @@ def probe_findings(chk, E, tmp):
             chk.known_finding_reproduces("F7", f"model_factory('logistic', instance_name='my_model') -> save -> load: {type(e).__name__}: {e}")
     except Exception as e:
         chk.note(f"F7 probe could not run: {type(e).__name__}")
+    # F110
+    import pathlib
+    case = dict(src="random", kind="linear", d=2, s=1, noise="gaussian-diagonal", feats=["A", "B"], hyp={}, name="linear", pseed=8)
+    try:
+        m, _ = build_model(E, case)
+        p = os.path.join(tmp, "f110.json")
+        m.save(pathlib.Path(p))
+        try:
+            with core.quiet():
+                E.BaseModel.load(pathlib.Path(p))
+            chk.note("finding F110 no longer reproduces")
+        except E.errs["model"] as e:
+            chk.known_finding_reproduces("F110", f"model.save(pathlib.Path(p)) works, BaseModel.load(pathlib.Path(p)): {type(e).__name__}: {str(e)[:90]}")
+    except Exception as e:
+        chk.note(f"F110 probe could not run: {type(e).__name__}")
     # F23
     case = dict(src="random", kind="logistic", d=2, s=1, noise="gaussian-diagonal", feats=None, hyp={}, name="logistic", pseed=3)
     try:
@@ -1327,8 +1673,14 @@ def malformed_files(chk, E, FC, bases: list, n: int, tmp: str):
 def run(chk: core.Check):
     E = A.env()
     rng = chk.rng
-    chk.rule = ("one case = one model object (kind, dimension, sources, noise structure, feature names, instance name; parameters from a "
-                "short real fit on a mock cohort or random) taken through save -> load -> compare -> save -> load -> save; distinct by "
+    chk.rule = ("one case = one model object (kind, dimension up to 11, sources up to dimension - 1, noise structure, feature names, instance "
+                "name; parameters from a short real fit on a mock cohort - 1 to 10 iterations, memory-less phase shorter than / equal to / "
+                "longer than the run, annealing, every population sampler, cohort as Data / Dataset / DataFrame, settings as keywords or as "
+                "an object, with logs, random initialisation, a second fit, a warm start from the saved file - or written by hand: plausible or "
+                "edge values (zero, signed zero, float32 sub-normals, 1e-30 .. 1e6, integers beyond 2**24) handed over as nested lists / tuples "
+                "/ float32 arrays / tensors / bare numbers, compared with the numbers handed over) taken through save -> load -> compare -> "
+                "save -> load -> save, then through every public way in (pathlib.Path, dictionaries, the concrete class, save options, a deep "
+                "copy, a second save of the used original); a file loaded under an ambient default dtype of float64; distinct by "
                 "(kind, instance name, dimension, sources, noise, parameter source, precision); every case is non-trivial except models that "
                 "could not be constructed. The same file content goes to the Lean model; float32 rounding, DAG parameter shapes and the "
                 "ModelName lookup are compared separately. Codec layer: (a) random tensors (6 dtypes, depth <= 4, zero-length axes, transposed / "
@@ -1391,6 +1743,12 @@ def run(chk: core.Check):
                         except Exception as e:
                             chk.tag("spec_construction", f"{kind}:d={d},s={s}:{A.err_class(e)}:{str(e)[:50]}")
         side_checks(chk, E, values, specs, names + A.KINDS + ["Logistic", "LINEAR", "univariate_logistic", "my_model", ""])
+        try:
+            ambient_dtype_probe(chk, E, tmp)
+        except core.Infra:
+            raise
+        except Exception as e:  # noqa
+            chk.impl_failure({"kind": "ambient-f64"}, f"file loaded under default dtype float64: unexpected {type(e).__name__}: {str(e)[:120]}")
         probe_findings(chk, E, tmp)
     finally:
         shutil.rmtree(tmp, ignore_errors=True)
